@@ -57,7 +57,8 @@ func (mf *memorySegmentFile) close() (err error) {
 }
 
 func (mf *memorySegmentFile) get() (io.Reader, int, error) {
-	data := mf.file.Bytes()
+	// 片段滚动时缓冲区会被放回对象池并被新片段复用，读取方必须拿到副本
+	data := append([]byte(nil), mf.file.Bytes()...)
 	return bytes.NewReader(data), len(data), nil
 }
 
